@@ -1064,7 +1064,75 @@ RULE = ("program AST drawn from the C02 grammar (2-8 macro names with a fixed ca
         "Non-trivial: the model saw a macro call made from inside another macro's expansion, or a delimited "
         "parameter being matched. Distinct by sha1 of the AST.")
 
+K_CSNAME_BRACE = "boundary:brace-character-inside-csname"
+
+
+# --------------------------------------------------------------------------
+# boundary: complete product of parameter texts x boundary arguments x uses of the argument
+# --------------------------------------------------------------------------
+# (parameter text after the macro name, how a call is written around the argument A)
+B_PARAMS = [("#1.", "%s."), ("#1 ", "%s "), ("#1\\fin ", "%s\\fin "), ("#1.,", "%s.,"), ("#1;#2.", "%s;q."),
+            ("#1 #2.", "%s q."), ("[#1]", "[%s]"), ("#1", "%s"), ("#1#2", "%sq"), ("x#1.", "x%s.")]
+B_ARGS = ["", "{}", "{{}}", "{}{}", "u", "{u}", "uv", "{u}v", "u{v}", "{uv}", "{u}{v}", "{{u}}", "{u v}", "{ }"]
+# (body of the macro under test; helper macros \zba (1 undelimited), \zbb (2 undelimited), \zbc (delimited))
+B_BODIES = ["[#1]", "\\zba#1xw", "\\zba{#1}xw", "\\zbb#1xw", "\\zbc#1.w", "\\csname zq#1\\endcsname", "#1#1",
+            "{#1}", "\\zba#1"]
+B_PRE = ("\\def\\zba#1{<#1>}\\def\\zbb#1#2{<#1|#2>}\\def\\zbc#1.{(#1)}"
+         "\\def\\zq{Q0}\\def\\zqu{Q1}\\def\\zquv{Q2}")
+
+
+def boundary(tier):
+    combos = [(p, a, b) for p in range(len(B_PARAMS)) for a in range(len(B_ARGS)) for b in range(len(B_BODIES))]
+
+    def fn(n):
+        p, a, b = combos[n]
+        return {"param": p, "arg": a, "body": b}
+    return len(combos), fn
+
+
+def boundary_source(case):
+    ptext, call = B_PARAMS[case["param"]]
+    arg = B_ARGS[case["arg"]]
+    body = B_BODIES[case["body"]]
+    if "#2" in ptext:
+        body = body + "/#2"
+    return "%s\\def\\zt%s{%s}A\\zt%sT Z" % (B_PRE, ptext, body, call % arg)
+
+
+def check_boundary(case):
+    src = boundary_source(case).replace("\\\\", "\\")
+    feats = ["param:" + B_PARAMS[case["param"]][0], "arg:" + (B_ARGS[case["arg"]] or "(empty)"),
+             "use:" + B_BODIES[case["body"]]]
+    verdict, m, obs = judge(src)
+    if verdict == "skip":
+        return skip("model-rejects-input" if m is None else "model-unbalanced-groups", feats)
+    nontrivial = "{" in B_ARGS[case["arg"]] or B_ARGS[case["arg"]] == ""
+    if m.stats.get("csname_brace"):
+        # listed finding: while it is listed the combination is counted, not judged
+        if K_CSNAME_BRACE in KNOWN and not case.get("judge_anyway"):
+            return skip("excluded-known:brace-character-inside-csname", feats)
+        if verdict != "ok":
+            return fail(K_CSNAME_BRACE, {"src": src, "expected": m.text,
+                                         "observed": obs if verdict == "text" else repr(obs)[:300]}, feats)
+    if verdict == "ok":
+        return ok(feats, nontrivial)
+    detail = {"src": src, "expected": m.text}
+    if verdict == "raise":
+        return fail("boundary:" + obs.key, dict(detail, **obs.detail()), feats)
+    if verdict == "depth":
+        return fail("boundary:context-depth-not-restored", dict(detail, depth_delta=obs), feats)
+    return fail("boundary:text-mismatch:%s" % ("delimited" if case["param"] not in (7, 8) else "undelimited"),
+                dict(detail, observed=obs), feats)
+
+
+RULE_B = ("complete product of 10 parameter texts (delimited by a character, a blank, a control word, two tokens, "
+          "between two parameters, [..], undelimited, after a literal prefix) x 14 boundary arguments (empty, {}, {{}}, "
+          "{}{}, one/two tokens, groups before/after/around tokens, a group holding a blank) x 9 uses of the argument "
+          "(printed, handed on bare/braced to macros with one, two or delimited parameters, inside \\csname, twice, in a "
+          "group, as last token); expected text from models/minitex. Non-trivial: the argument is empty or has a group.")
+
 STREAMS = [
+    Stream("boundary", "enum", boundary, check_boundary, timeout=30.0, rule=RULE_B),
     Stream("programs", "given", lambda tier: programs(tier), check,
            budget={"quick": 1500, "thorough": 40000}, timeout=30.0, rule=RULE,
            hang_is_violation=True),
